@@ -25,6 +25,7 @@ def runs_for(prop, tier):
         "C10": [R("core"), R("gang", 1.5)],
         "C11": [R("core", 1.5), R("reload"), R("dyn")],
         "C16": [R("reload", 2), R("quota", .6), R("limits", .6)],
+        "C13": [R("bad", 3), R("core", .5)],
     }
     return table[prop]
 
@@ -62,11 +63,13 @@ def model_stage(tier, seed, mc=True):
 NEED = {   # vacuity guards: the run is not a verdict unless these step kinds occurred
     "C01": ["schedAlloc"], "C02": ["schedAlloc"], "C03": ["schedAlloc", "drains", "replConfirm"], "C04": ["schedAlloc", "confirm"],
     "C05": ["schedAlloc"], "C06": ["replDecided", "replConfirm", "phTimerFired"], "C07": ["preemptSteps"], "C08": ["preemptSteps"],
-    "C09": ["resvMade"], "C10": ["appStateChanges", "stateTimerFired"], "C11": ["schedAlloc"], "C16": ["reloadOk", "reloadRejected"],
+    "C09": ["resvMade"], "C10": ["appStateChanges", "stateTimerFired"], "C11": ["schedAlloc"], "C16": ["reloadOk", "reloadRejected"], "C13": ["bad"],
 }
 
 # properties decided by their own pipeline module (vlib/<module>.py: main(prop, tier, seed, argv))
 OTHER = {"C18": "resarith", "C19": "sorting", "C20": "events", "C15": "confvalid", "C17": "placement"}
+# C13: besides its own checks, every ledger invariant counts in the malformed-request profile ("leaves accounting as it was")
+PREFIXES = {"C13": ["C13_", "C03_", "C01_NodeLedger", "C09_Views", "C05_UserUsage", "C05_GroupUsage"]}
 MODEL_PROPS = {"C01", "C02", "C03", "C04", "C06", "C09", "C10"}   # properties the generative model speaks about
 CRASH_OWNERS = {"C08", "C13"}   # properties whose statement covers "the core process dies"
 LEVEL_TEXT = {}
@@ -89,7 +92,7 @@ def main(argv):
             return
         C.build()
         kf_all = C.known_findings()
-        res = T.run(prop, [prop + "_"], runs_for(prop, tier), tier, seed, kf_all, NEED[prop], gen=model_stage(tier, seed) if prop in MODEL_PROPS else None)
+        res = T.run(prop, PREFIXES.get(prop, [prop + "_"]), runs_for(prop, tier), tier, seed, kf_all, NEED[prop], gen=model_stage(tier, seed) if prop in MODEL_PROPS else None)
         # a crash of the core process is a violation for the properties that speak about it, otherwise not a verdict
         crash_infra = None
         for msg, rp in res["crashes"]:
@@ -104,11 +107,19 @@ def main(argv):
             if k.get("status") == "known" and prop in k.get("properties", [k.get("property")]):
                 kf_lines.append("KNOWN-FINDING: property=%s %s [%s] observed_in_this_run=%d" % (prop, k["what"], k["id"], res["kf_obs"].get(k["id"], 0)))
         cov = {"evaluations": res["steps"], "distinct_nontrivial": res["nontrivial"],
-               "rule": "one evaluation = one step of the real core validated by TLC against YKTrace.tla (all %s_* checks on the logged pre/post state); a trace (seeded operation sequence) is non-trivial when it contains at least one step of the kinds %s; distinct = distinct operation sequences (sha1)" % (prop, NEED[prop]),
+               "rule": "one evaluation = one step of the real core validated by TLC against YKTrace.tla (all %s checks on the logged pre/post state); a trace (operation sequence: seeded workload profile or TLC-generated environment history) is non-trivial when it contains at least one step of the kinds %s; distinct = distinct operation sequences (sha1)" % (PREFIXES.get(prop, [prop + "_*"]), NEED[prop]),
                "samples": res["samples"], "traces_validated_against_impl": res["traces"], "steps_validated": res["steps"], "guard_hit_counters": res["counters"],
                "failing_checks": res["failing_checks"], "known_findings_observed": res["kf_obs"], "exhaustive": False}
-        C.write_evidence(prop, tier, seed, "exploration", cov, time.time() - t0, len(res["violations"]),
-                         ["the projection (harness/drive/project.go) reports the core's state faithfully", "TLC evaluates YKTrace.tla correctly", "sequential driver: one operation at a time, quiescent after each step"])
+        level = "exploration"
+        assumptions = ["the projection (harness/drive/project.go) reports the core's state faithfully", "TLC evaluates YKTrace.tla correctly", "sequential driver: one operation at a time, quiescent after each step"]
+        if res.get("model"):
+            m = res["model"]
+            level = "model_checking"
+            cov.update(states=m["states"], transitions=m["transitions"], model=m["model_cfg"], model_exhaustive_within_bounds=True,
+                       tests_generated_bounded=m["tests_bounded"], tests_generated_simulated=m["tests_simulated"],
+                       explanation="states/transitions: exhaustive TLC run of spec/YuniKorn.tla (intended behaviour) under %s, all design invariants hold; its environment histories were replayed on the real core and every step validated" % m["model_cfg"])
+            assumptions.append("the generative model is exhaustive only within the constants of its MC_YK configuration")
+        C.write_evidence(prop, tier, seed, level, cov, time.time() - t0, len(res["violations"]), assumptions)
         if os.environ.get("VERIF_VERBOSE"):
             print(json.dumps({k: v for k, v in res.items() if k != "samples"}, indent=1))
         C.finish(prop, res["violations"], kf_lines, infra=crash_infra or (("vacuous run: no step of kind %s" % missing) if missing else None))
